@@ -37,7 +37,12 @@ def load_known(pid):
         return []
     with open(path) as f:
         data = json.load(f)
-    return [x for x in data.get('findings', []) if x.get('property') == pid]
+    ret = [x for x in data.get('findings', []) if x.get('property') == pid]
+    extra = os.environ.get('VERIF_KNOWN_EXTRA')  # development only: proposed entries not yet adjudicated
+    if extra and os.path.exists(extra):
+        with open(extra) as f:
+            ret += [x for x in json.load(f).get('findings', []) if x.get('property') == pid]
+    return ret
 
 
 def load_module(pid):
